@@ -45,8 +45,9 @@ def train_data(n, N):
     data = torch.tensor([R.index_to_row((3 * k + 1) % (2 ** n), n) for k in range(N)], dtype=torch.double)
     data[1 % N] = 0.0
     bases = np.array([["Z"] * n if k % 2 == 0 else (["X"] + ["Z"] * (n - 1)) for k in range(N)]).reshape(N, n)
-    if N > 1:
-        data[1] = 0.0
+    for k in range(N):
+        if k % 2 == 1:
+            data[k, 0] = 0.0      # rotated site measured with outcome 0 (generically non-negligible amplitude)
     return data, bases
 
 
